@@ -34,7 +34,7 @@ func typeShort(t types.Type) string {
 		break
 	}
 	if n, ok := t.(*types.Named); ok {
-		return n.Obj().Name()
+		return core.KnownTypeName(n)
 	}
 	return types.TypeString(t, func(*types.Package) string { return "" })
 }
@@ -831,7 +831,7 @@ func messageSink(v ssa.Value, d int) string {
 			}
 		case *ssa.Call:
 			if g := core.StaticCallee(u); g != nil && g.Signature.Recv() != nil {
-				if n := core.NamedOf(g.Signature.Recv().Type()); n != nil && n.Obj().Name() == "Result" {
+				if n := core.NamedOf(g.Signature.Recv().Type()); n != nil && core.KnownTypeName(n) == "Result" {
 					return g.Name()
 				}
 			}
